@@ -141,6 +141,7 @@ class Scheduler:
         self._log = log
         self.max_steps = max_steps
         self.seq = 0
+        self.opcode_events = 0
 
     # ---- logging (never draws from the PRNG, never reads a clock)
     def log(self, kind, who, **kw):
@@ -165,10 +166,15 @@ class Scheduler:
         if not fn.endswith(self.trace_files):
             return None
         if frame.f_code.co_name in self.opcode_funcs:
+            # CPython >= 3.12 only honours f_trace_opcodes once the frame has a local trace
+            # function: install it first (setting the flag alone in the global tracer is ignored)
+            frame.f_trace = self._local_tracer
             frame.f_trace_opcodes = True
         return self._local_tracer
 
     def _local_tracer(self, frame, event, arg):
+        if event == 'opcode':
+            self.opcode_events += 1
         if event == 'line' or event == 'opcode':
             name = self.current_name()
             if name is not None:
